@@ -635,6 +635,11 @@ func ReadRequest(b *bfe_bufio.Reader, maxUriBytes int) (req *Request, err error)
 	if !ok {
 		return nil, &badStringError{"malformed HTTP request", s}
 	}
+	// RFC 7230 3.1.1: method = token. The method is written verbatim into the
+	// request line forwarded to the backend.
+	if !validHeaderName(req.Method) {
+		return nil, &badStringError{"invalid method", req.Method}
+	}
 	rawurl := req.RequestURI
 
 	if len(rawurl) > maxUriBytes {
